@@ -40,8 +40,9 @@ def make_env_cls():
 
     def reset(self, rng):
       m = (rng[-1] % self.table.shape[0]).astype(jp.int32) if self.by_key else jp.int32(0)
-      ps = {'t': jp.int32(0), 'm': m, 'acc': jp.zeros(2, jp.float32)}
-      obs = jp.array([0.0, 0.0, 0.0]) + jp.array([1000.0, 0, 0]) * m
+      a0 = (self.sys.gain - 1.0) * jp.array([1.0, 2.0], jp.float32)   # the reset state depends on the system parameter
+      ps = {'t': jp.int32(0), 'm': m, 'acc': a0}
+      obs = jp.array([0.0, 0.0, 0.0]).at[1].set(a0[0]).at[2].set(a0[1]) + jp.array([1000.0, 0, 0]) * m
       return State(ps, obs, jp.float32(0), jp.float32(0), {}, {})
 
     def step(self, state, action):
